@@ -76,6 +76,10 @@ def sequence_items(ctx: Ctx, fn: FuncInfo, call: ast.Call, owner: Optional[Class
     arg = strip_casts(call.args[0]) if call.args else None
     if isinstance(arg, ast.Name):
         arg = defs.single(arg.id) or arg
+    if isinstance(arg, ast.Call):
+        inl = ctx.xexpand(fn, arg, depth=1, stop=[n.id for n in ast.walk(arg) if isinstance(n, ast.Name)])
+        if isinstance(inl, (ast.ListComp, ast.List, ast.Tuple)):
+            arg = inl
     if isinstance(arg, (ast.List, ast.Tuple)):
         return [describe_item(ctx, fn, e, owner) for e in arg.elts]
     if isinstance(arg, ast.ListComp) and len(arg.generators) == 1 and not arg.generators[0].ifs:
@@ -107,11 +111,16 @@ def returned_sequence(ctx: Ctx, fn: FuncInfo, owner: Optional[ClassInfo] = None)
 
 
 def joined_items(ctx: Ctx, fn: FuncInfo, expr: ast.AST, owner: Optional[ClassInfo] = None) -> Optional[List[Item]]:
-    """Items of  b"".join([bytes(chunk) for chunk in <list>])."""
+    """Items of  b"".join([bytes(chunk) for chunk in <list>])  (also through a local or an extracted helper)."""
     defs = ctx.defs(fn)
     expr = strip_casts(expr)
     if isinstance(expr, ast.Name):
         expr = defs.single(expr.id) or expr
+    if isinstance(expr, ast.Call) and not (isinstance(expr.func, ast.Attribute) and expr.func.attr == "join"):
+        # helper call: inline it (arguments stay as written so that list locals are still resolvable)
+        inl = ctx.xexpand(fn, expr, depth=1, stop=[n.id for n in ast.walk(expr) if isinstance(n, ast.Name)])
+        if isinstance(inl, ast.Call) and isinstance(inl.func, ast.Attribute) and inl.func.attr == "join":
+            expr = inl
     if not (isinstance(expr, ast.Call) and isinstance(expr.func, ast.Attribute) and expr.func.attr == "join" and isinstance(expr.func.value, ast.Constant) and expr.func.value.value == b"" and len(expr.args) == 1):
         return None
     comp = expr.args[0]
